@@ -29,11 +29,24 @@ KNOBS = {
     "p_deps": 0.1,
     "p_sync": 0.15,
     "middlewares": (0, 1),
+    "durations": {"zero": 2, "tiny": 3, "short": 4, "medium": 3, "long": 2, "poll": 1, "tie": 4},
 }
 
 
 def gen(rs: int, tier: str, index: int) -> dict:
-    s = gen_worker_script(rs, tier_knobs(KNOBS, tier, index))
+    kn = KNOBS
+    if index % 6 == 2:
+        # a saturated worker with a deep prefetch buffer whose bodies end in the very same loop iteration (burst arrival, equal
+        # durations, no CPU-time jitter): several slots are released before the runner gets to run again
+        kn = dict(KNOBS, A=[2, 2, 3], P=[2, 3, 5], workers=[1], arrival=["burst"], n_msgs=(6, 14), cpu=False, p_stop=0.2,
+                  durations={"tie": 1}, p_malformed=0.03, p_unknown=0.03, p_timeout=0.0, p_sync=0.0)
+    s = gen_worker_script(rs, tier_knobs(kn, tier, index))
+    if index % 6 == 2:
+        for m in s["messages"]:
+            m["send_at_us"] = 0
+            m.pop("net", None)
+            m.pop("ack", None)
+            m.pop("save", None)
     from sim.rng import stream
     r = stream(rs, "c01late")
     if r.random() < 0.25 and s["messages"]:
